@@ -23,6 +23,9 @@ type TSIG struct {
 	// OtherLenWire is the OTHER LEN as found on the wire when it differs from len(Other)
 	// (a record whose other data is cut short); 0 means len(Other).
 	OtherLenWire int
+	// WireClass / WireTTL: the CLASS and TTL fields of the TSIG RR as found on the wire (SplitTSIG).
+	WireClass uint16
+	WireTTL   uint32
 }
 
 // HMACFor returns the hash constructor for an algorithm name (lower-case, fully qualified text).
@@ -163,6 +166,7 @@ func SplitTSIG(msg []byte) (noTSIG []byte, t *TSIG, classTTLOK bool, ok bool) {
 		return nil, nil, false, false
 	}
 	classTTLOK = binary.BigEndian.Uint16(msg[p+2:]) == 255 && binary.BigEndian.Uint32(msg[p+4:]) == 0
+	wireClass, wireTTL := binary.BigEndian.Uint16(msg[p+2:]), binary.BigEndian.Uint32(msg[p+4:])
 	rdEnd := p + 10 + int(binary.BigEndian.Uint16(msg[p+8:]))
 	q := p + 10
 	an, q2, _, err := DecodeName(msg, q)
@@ -201,5 +205,6 @@ func SplitTSIG(msg []byte) (noTSIG []byte, t *TSIG, classTTLOK bool, ok bool) {
 	}
 	noTSIG = append([]byte(nil), msg[:last]...)
 	binary.BigEndian.PutUint16(noTSIG[10:], uint16(ar-1))
+	t.WireClass, t.WireTTL = wireClass, wireTTL
 	return noTSIG, t, classTTLOK, true
 }
